@@ -203,7 +203,7 @@ theorem handleRequest_mine {s : Srv} (h : Inv s) {c ts t} (hc : get? s.clients c
 
 theorem handleRequest_notMine {s : Srv} (h : Inv s) {c ts t} (hc : get? s.clients c = some ts)
     (ht : t ∉ ts) :
-    handleRequest s c t = handleDisconnect (s.emit (.errorTo c 0)) c := by
+    handleRequest s c t = handleDisconnect (s.emit (.errorNow c 0)) c := by
   simp [handleRequest, h.notMine t hc, ht]
 
 /-- post-state of a submit -/
